@@ -90,7 +90,14 @@ def run(seed, n_traces, length):
                         ffp = rng.random() < 0.5
                         flags0 = [x.fixed for x in g._vertices]
                         before = [np.array(x.pose).tobytes() for x in g._vertices]
-                        g.optimize(tol=rng.choice([0.0, 1e-4]), max_iter=rng.randrange(1, 4), fix_first_pose=ffp, verbose=False)
+                        if rng.random() < 0.3:
+                            for x in e.vertices:
+                                x.fixed = True  # an edge whose endpoints are all fixed
+                            flags0 = [x.fixed for x in g._vertices]
+                            snap = G.snapshot(g)
+                            g.optimize(tol=1e-2, max_iter=40, fix_first_pose=ffp, verbose=False)  # ends through the early return
+                        else:
+                            g.optimize(tol=rng.choice([0.0, 1e-4]), max_iter=rng.randrange(1, 4), fix_first_pose=ffp, verbose=False)
                         s1 = G.snapshot(g)
                         exp_flags = list(flags0)
                         if ffp:
